@@ -31,9 +31,9 @@ func boolp(b bool) *bool { return &b }
 
 func c06cases(thorough bool) []c06case {
 	var cs []c06case
-	maxObj := 2
+	maxObj := 3
 	if thorough {
-		maxObj = 3
+		maxObj = 4
 	}
 	// ---- (a) Update / Delete: hosts ----
 	type hostV struct {
@@ -202,7 +202,10 @@ func c06cases(thorough bool) []c06case {
 		{"undo-actor-repeated-three-orig-three", L{Carol, Dave, Carol}, L{Carol, Dave, Erin}, false},
 		{"orig-actor-repeated", L{Carol}, L{Carol, Carol}, true},
 	} {
-		for _, form := range []string{"embedded", "iri"} {
+		for _, form := range []string{"embedded", "iri", "forged"} {
+			if form == "forged" && rel.ok {
+				continue
+			}
 			for _, n := range []int{1, 2} {
 				rel, form := rel, form
 				origDoc := Doc("Like", undone, "actor", val1(rel.orig), "object", Note1)
@@ -214,6 +217,10 @@ func c06cases(thorough bool) []c06case {
 					}
 					e := deepCopy(d).(map[string]interface{})
 					delete(e, "@context")
+					if form == "forged" {
+						// the sender's embedded copy claims the Undo's own actors; the origin says otherwise
+						e["actor"] = deepCopy(val1(rel.undo))
+					}
 					return e
 				}
 				objs = append(objs, mk(origDoc))
@@ -327,7 +334,7 @@ func C06(tier string) int {
 			cases = append(cases, v)
 		}
 	}
-	res.Rule = fmt.Sprintf("(a) Update/Delete with the activity id on a host (default and non-default port) and every sequence of 1..%d object ids over hosts {same, other domain, other port, explicit default port, sub-domain, upper-case, parent domain}, embedded / IRI / embedded Link or Mention carrying the id plus an href on the activity's own host, keeping the sequences that contain a host that must be refused; (b) Accept with the stored Follow in {ours, ours with two objects, ours with two actors, absent, a Note, another actor's, lacking the accepting actor, a Like / Block / Offer / Create of the local actor naming the peer} x Follow embedded / by IRI (the peer's copy always supports its claim) x 10 accepting-actor sets (IRI, embedded actor, Link / Mention with id and differing href, Mention with href only); (c) Undo with actor sets equal / superset / subset / disjoint / overlapping, embedded / IRI, 1..2 undone activities; (c') the same with Link-spelled actors whose id and href disagree; (d) every sequence of 1..3 activity actors (IRI / embedded actor / Link with id and another href / Mention with href only) x blocked subsets, and an erroring block check; %d requests; every refused Update / Delete / Undo again after a LEGITIMATE activity carrying the same id was accepted at another local inbox of the same Actor; oracle: refusal implies the request fails and the state differs from the initial one at most by the inbox entry", map[bool]int{false: 2, true: 3}[res.Thorough()], len(cases))
+	res.Rule = fmt.Sprintf("(a) Update/Delete with the activity id on a host (default and non-default port) and every sequence of 1..%d object ids over hosts {same, other domain, other port, explicit default port, sub-domain, upper-case, parent domain}, embedded / IRI / embedded Link or Mention carrying the id plus an href on the activity's own host, keeping the sequences that contain a host that must be refused; (b) Accept with the stored Follow in {ours, ours with two objects, ours with two actors, absent, a Note, another actor's, lacking the accepting actor, a Like / Block / Offer / Create of the local actor naming the peer} x Follow embedded / by IRI (the peer's copy always supports its claim) x 10 accepting-actor sets (IRI, embedded actor, Link / Mention with id and differing href, Mention with href only); (c) Undo with actor sets equal / superset / subset / disjoint / overlapping, embedded / IRI / embedded with the copy forged to claim the Undo's actors, 1..2 undone activities; (c') the same with Link-spelled actors whose id and href disagree; (d) every sequence of 1..3 activity actors (IRI / embedded actor / Link with id and another href / Mention with href only) x blocked subsets, and an erroring block check; %d requests; every refused Update / Delete / Undo again after a LEGITIMATE activity carrying the same id was accepted at another local inbox of the same Actor; every refused or unverified Update / Delete / Accept / Undo again with each single (thorough: double) seam call failing (no write, no Undo callback, no state change beyond the inbox entry whatever fails); oracle: refusal implies the request fails and the state differs from the initial one at most by the inbox entry", map[bool]int{false: 3, true: 4}[res.Thorough()], len(cases))
 	res.Assumptions = []string{"hosts differing only in case or by an explicit default port may be accepted or refused", "positive application for equal hosts is C04's"}
 	var mu sync.Mutex
 	chunk := 100
@@ -469,6 +476,97 @@ func C06(tier string) int {
 			res.Violate(v.key, v.what, v.rep)
 		}
 	})
+	// ---- every refused / unverified request again with each single (thorough: double) seam call failing:
+	// a failure on the way (the undone activity or the Follow cannot be fetched, a read fails) must not
+	// turn a refusal into an acceptance ----
+	var fcases []c06case
+	for _, c := range cases {
+		if c.afterLegit || c.family == "block" {
+			continue
+		}
+		if c.family == "origin" && len(asList(c.body["object"])) > 2 {
+			continue
+		}
+		if c.mustRefuse || (c.wantCB != nil && !*c.wantCB) || (c.following != nil && !*c.following) {
+			fcases = append(fcases, c)
+		}
+	}
+	fbound := 1
+	if res.Thorough() {
+		fbound = 2
+	}
+	nFault := 0
+	parallel(len(fcases), func(i int) {
+		c := fcases[i]
+		sc := &Scenario{Name: c.name, Kind: ap.Both, Entry: "PostInbox", URL: inbox(Alice), Body: c.body, Tweak: c.tweak}
+		e := &mc.Explorer{}
+		e.Budget = [3]int{0, fbound, 0}
+		n := 0
+		type viol struct {
+			key, what string
+			rep       M
+		}
+		var vs []viol
+		e.Run = func(x *mc.Exec) bool {
+			a := sc.World()
+			before := RefOf(a)
+			a.X, a.Faults = x, true
+			out := sc.On(a, nil)
+			f := faultOps(x)
+			if len(f) == 0 || out.Panic != nil {
+				return true // the fault-free run is judged above
+			}
+			n++
+			rep := M{"check": "C06", "part": "faults", "family": c.family, "case": c.name, "body": c.body, "choices": x.Choices(), "faults": f}
+			bad := func(kind, what string) {
+				vs = append(vs, viol{c.family + "|under-fault|" + kind, fmt.Sprintf("%s with %v failing: %s", c.name, f, what), rep})
+			}
+			for _, cl := range a.Log {
+				for _, op := range c.noWrites {
+					if cl.Op == op {
+						bad("applied-"+op, fmt.Sprintf("%s(%s) was called", op, cl.Arg))
+					}
+				}
+				if cl.Op == "Fed.cb.Undo" && c.wantCB != nil && !*c.wantCB {
+					bad("undo-accepted", "the Undo callback ran")
+				}
+			}
+			// the state may differ from the initial one by the inbox entry and the seen-record only
+			filter := func(ds []string) (real []string) {
+				for _, d := range ds {
+					if !strings.Contains(d, fmt.Sprint(c.body["id"])) {
+						real = append(real, d)
+					}
+				}
+				return
+			}
+			real := filter(before.Diff(a, nil))
+			if id, ok := c.body["id"].(string); ok && len(real) > 0 {
+				with := before.Clone()
+				with.In[inbox(Alice)] = append([]string{id}, with.In[inbox(Alice)]...)
+				if r2 := filter(with.Diff(a, nil)); len(r2) < len(real) {
+					real = r2
+				}
+			}
+			if len(real) > 0 {
+				bad("state-changed|"+diffClass(real[0]), strings.Join(real, "; "))
+			}
+			return true
+		}
+		e.Explore()
+		mu.Lock()
+		defer mu.Unlock()
+		if !e.Exhaustive {
+			res.Exhaustive = false
+		}
+		nFault += n
+		for _, v := range vs {
+			res.Violate(v.key, v.what, v.rep)
+		}
+	})
+	res.Evaluations += nFault
+	res.Extra["runs_under_faults"] = nFault
+	res.Extra["fault_bound_completed"] = fbound
 	for _, i := range []int{0, len(cases) / 2, len(cases) - 40, len(cases) - 2} {
 		res.Sample(M{"case": cases[i].name, "body": cases[i].body})
 	}
